@@ -10,9 +10,14 @@
 //! allocated with - the GlobalAlloc contract -, 2 write outside the block, 4 write after free).  At the end: `E v0 v1 v2 v3 live words flags`
 //! after all four values were dropped (ledger must be back to 0 0).  Nothing is judged here.
 //!
-//! The guard allocator is harness code, not dashu: every block gets 32 poisoned bytes on both sides
-//! (checked at free), fresh memory is filled with 0xCD, freed memory with 0xDD and kept in a quarantine
-//! ring (checked for writes when it leaves the ring), `realloc` always moves.
+//! The guard allocator is harness code, not dashu: every block gets 64 bytes on both sides (checked at free): in front the
+//! bookkeeping words, a poisoned canary word and then FOUR words directly before the block that are ZERO for most blocks
+//! (a scan that runs off the front of a block of zero words - Buffer::pop_zeros - keeps going and its length underflows:
+//! overflow panic in the checked profile, an absurd length otherwise) and poisoned for blocks of 4k + 3 words (code that
+//! reads the word before the block as data sees garbage); behind the block 64 poisoned bytes.  Fresh memory is filled with
+//! 0xCD, freed memory with 0xDD and kept in a quarantine ring (checked for writes when it leaves the ring), `realloc` always
+//! moves, a request above 2^40 bytes returns null (the library's own out-of-memory path runs), a second release of a block
+//! is recorded (flag bit 0) and NOT performed.
 use dashu_base::{BitTest, DivRem, Gcd, PowerOfTwo, SquareRoot, UnsignedAbs};
 use dashu_int::verif_hooks::repr_layout_ibig;
 use hlib::*;
@@ -24,7 +29,9 @@ use std::sync::atomic::{AtomicBool, AtomicIsize, AtomicUsize, Ordering::SeqCst};
 // ------------------------------------------------------------------------------------------------
 // guard + counting allocator
 // ------------------------------------------------------------------------------------------------
-const PAD: usize = 32;
+const PAD: usize = 64;
+const ALLOC_LIMIT: usize = 1 << 40;
+const FRONT_WORDS: usize = 4; // words 4..8 of the front pad, directly before the block
 const MAGIC_LIVE: usize = 0x5afe_b10c_a11c_0de5;
 const MAGIC_DEAD: usize = 0xdead_b10c_dead_b10c;
 static IN_OP: AtomicBool = AtomicBool::new(false);
@@ -57,6 +64,9 @@ unsafe impl GlobalAlloc for Guard {
             return System.alloc(l);
         }
         let size = l.size();
+        if size > ALLOC_LIMIT {
+            return std::ptr::null_mut();
+        }
         let p = System.alloc(Layout::from_size_align_unchecked(size + 2 * PAD, PAD));
         if p.is_null() {
             return p;
@@ -66,6 +76,10 @@ unsafe impl GlobalAlloc for Guard {
         *(p as *mut usize).add(1) = MAGIC_LIVE;
         *(p as *mut usize).add(2) = tagged as usize | l.align() << 8;
         *(p as *mut usize).add(3) = 0xA5A5_A5A5_A5A5_A5A5;
+        let front: usize = if (size / 8) % 4 == 3 { 0xA5A5_A5A5_A5A5_A5A5 } else { 0 };
+        for i in 0..FRONT_WORDS {
+            *(p as *mut usize).add(4 + i) = front;
+        }
         let body = p.add(PAD);
         std::ptr::write_bytes(body, 0xCD, size);
         std::ptr::write_bytes(body.add(size), 0xA5, PAD);
@@ -97,6 +111,12 @@ unsafe impl GlobalAlloc for Guard {
         }
         if *(p as *mut usize).add(3) != 0xA5A5_A5A5_A5A5_A5A5 {
             FLAGS.fetch_or(4, SeqCst);
+        }
+        let front: usize = if (size / 8) % 4 == 3 { 0xA5A5_A5A5_A5A5_A5A5 } else { 0 };
+        for i in 0..FRONT_WORDS {
+            if *(p as *mut usize).add(4 + i) != front {
+                FLAGS.fetch_or(4, SeqCst);
+            }
         }
         for i in 0..PAD {
             if *ptr.add(size + i) != 0xA5 {
@@ -137,6 +157,10 @@ unsafe impl GlobalAlloc for Guard {
         }
         if size != l.size() || align != l.align() {
             FLAGS.fetch_or(2, SeqCst);
+        }
+        if new_size > ALLOC_LIMIT {
+            // the request cannot be satisfied: the old block stays valid and owned by the caller (GlobalAlloc contract)
+            return std::ptr::null_mut();
         }
         let new = self.alloc(Layout::from_size_align_unchecked(new_size, align));
         if !new.is_null() {
